@@ -42,7 +42,10 @@ func init() {
 		"(*sync.Once).Do":             intrOnceDo,
 		"strconv.Quote":               intrStrconvQuote,
 		"unicode/utf8.DecodeRune":     intrDecodeRune,
-		"strconv.Itoa":                intrFreshString,
+		"unicode/utf8.EncodeRune":     intrEncodeRune,
+		"unicode/utf16.IsSurrogate":   intrIsSurrogate,
+		"unicode/utf16.DecodeRune":    intrUtf16DecodeRune,
+		"strconv.Itoa":                intrFormatUint,
 		"strconv.FormatUint":          intrFormatUint,
 		"strconv.FormatInt":           intrFreshString,
 		"strconv.FormatBool":          intrFreshString,
@@ -155,6 +158,9 @@ func intrFreshString(f *Frame, callee *ssa.Function, args []Val, pc string, st *
 
 // strconv.FormatUint(v, 10): the canonical decimal rendering decimal_of(v) (uninterpreted)
 func intrFormatUint(f *Frame, callee *ssa.Function, args []Val, pc string, st *State, ins ssa.Value) (Val, string) {
+	if len(args) > 1 && args[1].T != "10" {
+		return intrFreshString(f, callee, args, pc, st, ins)
+	}
 	return Val{T: f.vc.define("dec", "Str", fmt.Sprintf("(decimal_of %s)", args[0].T)), Typ: callee.Signature.Results().At(0).Type()}, pc
 }
 
@@ -184,7 +190,43 @@ func intrDecodeRune(f *Frame, callee *ssa.Function, args []Val, pc string, st *S
 	r := vc.freshConst("rune", "Int")
 	sz := vc.freshConst("runesize", "Int")
 	vc.assert(fmt.Sprintf("(and (<= 0 %s) (<= %s 1114111) (<= 0 %s) (<= %s 4))", r, r, sz, sz))
+	// documented: (RuneError, 0) for empty input, otherwise 1 <= size <= len(p)
+	p := args[0].T
+	vc.assert(fmt.Sprintf("(and (<= %s (len %s)) (=> (> (len %s) 0) (>= %s 1)))", sz, p, p, sz))
 	return Val{Tuple: []Val{{T: r, Typ: res.At(0).Type()}, {T: sz, Typ: res.At(1).Type()}}, Typ: res}, pc
+}
+
+// utf8.EncodeRune(p, r) int: writes 1..4 bytes at the beginning of p and returns their number; it panics
+// when p is too short for the encoding: the obligation asks for the conservative len(p) >= 4.
+func intrEncodeRune(f *Frame, callee *ssa.Function, args []Val, pc string, st *State, ins ssa.Value) (Val, string) {
+	vc := f.vc
+	p := args[0].T
+	f.safe(pc, "encoderune", posOf(ins, f), fmt.Sprintf("(>= (len %s) 4)", p), "utf8.EncodeRune: room for four bytes")
+	n := vc.freshConst("runelen", "Int")
+	vc.assert(fmt.Sprintf("(and (<= 1 %s) (<= %s 4))", n, n))
+	et := types.Typ[types.Uint8]
+	cn := elemComp(et)
+	E := vc.comp(st, cn, vc.elemCompSort(et), et)
+	f.noteCompSt(st, cn)
+	// the first four bytes of p may change
+	na := vc.freshConst("encoded", "(Array Int Int)")
+	vc.assert(fmt.Sprintf("(forall ((i Int)) (! (=> (or (< i (off %s)) (>= i (+ (off %s) 4))) (= (select %s i) (select (select %s (arr %s)) i))) :pattern ((select %s i))))", p, p, na, E, p, na))
+	vc.assert(fmt.Sprintf("(forall ((i Int)) (! (and (<= 0 (select %s i)) (<= (select %s i) 255)) :pattern ((select %s i))))", na, na, na))
+	st.heap[cn] = vc.define("h", vc.compSorts[cn], fmt.Sprintf("(store %s (arr %s) %s)", E, p, na))
+	return Val{T: n, Typ: callee.Signature.Results().At(0).Type()}, pc
+}
+
+func intrIsSurrogate(f *Frame, callee *ssa.Function, args []Val, pc string, st *State, ins ssa.Value) (Val, string) {
+	r := args[0].T
+	return Val{T: f.vc.define("surr", "Bool", fmt.Sprintf("(and (<= 55296 %s) (< %s 57344))", r, r)), Typ: callee.Signature.Results().At(0).Type()}, pc
+}
+
+func intrUtf16DecodeRune(f *Frame, callee *ssa.Function, args []Val, pc string, st *State, ins ssa.Value) (Val, string) {
+	r := f.vc.freshConst("rune", "Int")
+	f.vc.assert(fmt.Sprintf("(and (<= 0 %s) (<= %s 1114111))", r, r))
+	// documented: U+FFFD unless (r1, r2) is a valid surrogate pair
+	f.vc.assert(fmt.Sprintf("(=> (not (= %s 65533)) (and (<= 55296 %s) (< %s 56320) (<= 56320 %s) (< %s 57344)))", r, args[0].T, args[0].T, args[1].T, args[1].T))
+	return Val{T: r, Typ: callee.Signature.Results().At(0).Type()}, pc
 }
 
 // ---- sync.Pool and bytes.Buffer: ownership model for C10 -------------------------------------------------
